@@ -266,4 +266,45 @@ example :
     (Body.findC 3 s0 0 120).isNone = true ∧ findC s0 0 98 = some (some 1) := by
   decide
 
+/-- `operator==` / `operator!=` (lengths, then `Memory::compare` over the first String's length; `&&` / `||` short circuit) are the
+    model's `equalS` / `notEqualS`, on every state -/
+theorem equalS_translated (s : St) (v w : Nat) :
+    Body.equalS s v w = equalS s v w ∧ Body.notEqualS s v w = notEqualS s v w := by
+  unfold Body.equalS Body.notEqualS equalS notEqualS
+  simp only [dLen_desc, dStr_desc]
+  cases hdv : desc s v with
+  | none => simp
+  | some dv =>
+    cases hdw : desc s w with
+    | none => simp
+    | some dw =>
+      by_cases e : dv.len = dw.len
+      · have E1 := memCompare_eq id s ⟨dv.base, dv.off⟩ ⟨dw.base, dw.off⟩ dv.len
+        have E2 := memCompare_eq not s ⟨dv.base, dv.off⟩ ⟨dw.base, dw.off⟩ dv.len
+        simp only [contentVal, content, hdv, hdw, Option.bind_eq_bind, Option.bind_some, ← e, Option.map_some, Nat.mul_one,
+          if_true, ne_eq, not_true_eq_false, if_false, Option.pure_def, Option.bind_assoc, id, decide_not, bne] at E1 E2 ⊢
+        exact ⟨E1, E2⟩
+      · simp [e]
+
+/-- `startsWith(const String&)` / `endsWith(const String&)` are the model's, on every state -/
+theorem startsWith_translated (s : St) (v w : Nat) :
+    Body.startsWith s v w = startsWith s v w ∧ Body.endsWith s v w = endsWith s v w := by
+  unfold Body.startsWith Body.endsWith startsWith endsWith
+  simp only [dLen_desc, dStr_desc]
+  cases hdv : desc s v with
+  | none => simp
+  | some dv =>
+    cases hdw : desc s w with
+    | none => simp
+    | some dw =>
+      by_cases e : dv.len < dw.len
+      · have : ¬ dv.len ≥ dw.len := by omega
+        simp [e, this]
+      · have e' : dv.len ≥ dw.len := by omega
+        have E1 := memCompare_eq id s ⟨dv.base, dv.off⟩ ⟨dw.base, dw.off⟩ dw.len
+        have E2 := memCompare_eq id s ⟨dv.base, dv.off + dv.len - dw.len⟩ ⟨dw.base, dw.off⟩ dw.len
+        simp only [contentVal, content, hdv, hdw, Option.bind_eq_bind, Option.bind_some, Option.map_some, e, e',
+          if_true, if_false, Option.pure_def, Option.bind_assoc, id, padd, psub] at E1 E2 ⊢
+        exact ⟨E1, E2⟩
+
 end Nstd.Str
